@@ -15,12 +15,15 @@ EXPLANATION = (
     "groups and the largest shift are computed and the accumulator is shown not to wrap a u64; every byte is fetched "
     "through the bounds-checked BufExt::get; every call site passes a literal prefix size within range. (c) "
     "prefix_string::{encode,decode} pass size-1 to the integer codec, use the lowest flag bit as the Huffman flag on "
-    "both sides, and check the declared length against the buffer before copying. Round trips for all strings and "
-    "strictness of Huffman padding are value-level and not decided."
+    "both sides, and check the declared length against the buffer before copying. Round trips for all strings are "
+    "value-level and not decided. (d) check_eof's mask is all ones for every count; DecodeIter::next ends the string only where "
+    "the table walk met the end of the input, on a decision that depends on the window position read before the walk and on the "
+    "input bytes (padding consumed by the walk is examined too), and bounds the accepted leftover below eight bits - the last "
+    "clause is violated by the current tree and listed as a known finding (ff decodes to the empty string)."
     " C15-a also tabulates HuffmanDecoder::decode_next by the decisions its paths make: the only clean end is fetch_value's Ok(None); a code without a table entry (EOS) is an error; symbols and sub-tables come from the entry found.")
 # every anchor of these rules lives in the h3 crate: thorough tier repeats them on the feature-less build
 EXTRA_CONFIGS = ["h3-plain"]
-RULES = "C15-a Huffman tables vs RFC 7541 App. B, decode_next row table (A11/A3); C15-b integer accumulator bound and truncation (A6/A15); C15-c codec entry points (A11); C15-d end-of-input padding mask evaluated over count 1..8 (extracted-expression evaluation); C15-c also: declared length, H flag and written octets of string encode belong to the same form; Huffman errors propagate"
+RULES = "C15-a Huffman tables vs RFC 7541 App. B, decode_next row table (A11/A3); C15-b integer accumulator bound and truncation (A6/A15); C15-c codec entry points (A11); C15-d end-of-input padding mask evaluated over count 1..8 (extracted-expression evaluation), the end of a string is decided from where the last symbol ended: None only after the walk met the end of the input, decision depends on the pre-walk position and the input bytes (MIR taint), leftover bounded below eight bits (known finding); C15-c also: declared length, H flag and written octets of string encode belong to the same form; Huffman errors propagate"
 
 HERE = os.path.dirname(os.path.dirname(os.path.abspath(__file__)))
 REF = json.load(open(os.path.join(HERE, "ref", "rfc7541_huffman_lengths.json")))
